@@ -1103,6 +1103,8 @@ impl LowerHex for Number {
                 }
                 fmt::LowerHex::fmt(&num.unsigned_abs(), f)
             }
+            // infinities and NaN have no digits in any radix
+            Number::Float(num) if !num.is_finite() => fmt::Display::fmt(num, f),
             Number::Float(num) => {
                 if *num < 0_f64 {
                     write!(f, "-")?;
@@ -1136,6 +1138,7 @@ impl Octal for Number {
                 }
                 fmt::Octal::fmt(&num.unsigned_abs(), f)
             }
+            Number::Float(num) if !num.is_finite() => fmt::Display::fmt(num, f),
             Number::Float(num) => {
                 if *num < 0_f64 {
                     write!(f, "-")?;
@@ -1169,6 +1172,7 @@ impl Binary for Number {
                 }
                 fmt::Binary::fmt(&num.unsigned_abs(), f)
             }
+            Number::Float(num) if !num.is_finite() => fmt::Display::fmt(num, f),
             Number::Float(num) => {
                 if *num < 0_f64 {
                     write!(f, "-")?;
